@@ -49,6 +49,33 @@ var extra = []c03.Scenario{
 			{Op: "startT"}, {Op: "v", Arg: "sync"}, {Op: "v", Arg: "replica-sync"}, {Op: "w", Arg: "small"}, {Op: "v", Arg: "sync"}, {Op: "v", Arg: "replica-sync"}, {Op: "v", Arg: "close"}, {Op: "stop"},
 		},
 	},
+	{
+		Name:  "T4",
+		Doc:   "chunked catch-up: MaxSyncWALBytes worth 2 / 1 application transactions (and a single frame), backlogs of 1..5 equal-sized transactions between local-only syncs, so some catch-ups end exactly on the byte budget",
+		Steps: t4Steps(),
+	},
+}
+
+func t4Steps() []c03.Step {
+	st := []c03.Step{{Op: "start"}, {Op: "w", Arg: "fixed"}, {Op: "v", Arg: "sync-wait"}, {Op: "w", Arg: "fixed"}, {Op: "v", Arg: "sync-wait"}}
+	backlog := func(n int) {
+		for i := 0; i < n; i++ {
+			st = append(st, c03.Step{Op: "w", Arg: "fixed"})
+		}
+		st = append(st, c03.Step{Op: "v", Arg: "sync"}, c03.Step{Op: "v", Arg: "replica-sync"})
+	}
+	st = append(st, c03.Step{Op: "budget", Arg: "2"})
+	for n := 1; n <= 5; n++ {
+		backlog(n)
+	}
+	st = append(st, c03.Step{Op: "budget", Arg: "1"})
+	for n := 1; n <= 3; n++ {
+		backlog(n)
+	}
+	st = append(st, c03.Step{Op: "budget", Arg: "-1"})
+	backlog(2)
+	st = append(st, c03.Step{Op: "budget", Arg: "0"}, c03.Step{Op: "w", Arg: "fixed"}, c03.Step{Op: "v", Arg: "sync-wait"}, c03.Step{Op: "v", Arg: "close"}, c03.Step{Op: "stop"})
+	return st
 }
 
 func scenario(name string) *c03.Scenario {
@@ -67,10 +94,10 @@ func init() {
 	vf.Register(&vf.Check{
 		ID:    "C11",
 		Level: "exploration",
-		Rule: "one case = one victim scenario/configuration traced with strace -f -y (C03 scenarios S1-S5, S5b, S7 follow mode, plus T1/T2 in which the fetched baseline is the only file published in the call); " +
+		Rule: "one case = one victim scenario/configuration traced with strace -f -y (C03 scenarios S1-S5, S5b, S7 follow mode, S8 with a same-name snapshot re-upload and a compaction upload whose stream is broken by the victim-side client wrapper, plus T1/T2 in which the fetched baseline is the only file published in the call and T4 with MaxSyncWALBytes worth 2/1 transactions or one frame and backlogs of 1..5 equal-sized transactions per local sync); " +
 			"every successful rename to a published name (local L0, fetched baseline L0, replica L0 / compacted / snapshot, restore output, -txid sidecar) is one R1 decision (data flushed after the last modification, before the rename) " +
 			"and one R2 decision (fsync of dirname(dst) after the rename and before the next success line of the operation, or process end); every successful unlink of a local or replica LTX file is one R3 decision " +
-			"(durable replica files without it still chain from TXID 1 to the highest acknowledged TXID; a local L0 file's TXIDs are contained in durable replica files). " +
+			"(durable replica files without it still chain from TXID 1 to the highest acknowledged TXID and its TXIDs are contained in durable files of a higher level or, for a snapshot, another snapshot; a local L0 file's TXIDs are contained in durable replica files); around every injected upload failure: no previously listed replica file is gone or altered. " +
 			"distinct = (scenario, config); non-trivial = at least one published rename was evaluated and at least one success line was seen",
 		Assumptions: []string{
 			"checks the order of the calls, not that kernel and disk honour them",
@@ -101,11 +128,14 @@ func cases(run *vf.Run) ([]json.RawMessage, error) {
 		}
 		for _, s := range extra {
 			for _, c := range c03.Configs {
+				if s.Name == "T4" && c.Name != "A" {
+					continue // the byte-budget arithmetic needs a WAL that is not restarted by checkpoints
+				}
 				list = append(list, sc{s.Name, c.Name})
 			}
 		}
 	} else {
-		list = []sc{{"S1", "B"}, {"S2", "A"}, {"S3", "A"}, {"S4", "A"}, {"S5", "A"}, {"S5b", "A"}, {"S7", "A"}, {"T1", "A"}, {"T2", "A"}, {"S3", "B"}}
+		list = []sc{{"S1", "B"}, {"S2", "A"}, {"S3", "A"}, {"S4", "A"}, {"S5", "A"}, {"S5b", "A"}, {"S7", "A"}, {"T1", "A"}, {"T2", "A"}, {"S3", "B"}, {"S8", "A"}, {"T4", "A"}}
 	}
 	var out []json.RawMessage
 	for _, s := range list {
@@ -152,11 +182,17 @@ func runCase(run *vf.Run, raw json.RawMessage, dir string) *vf.Result {
 		return c03.Launch{Mode: c03.Strace, Log: p}
 	}
 	at, err := w.Run(sc.Steps, 0)
-	if err != nil {
+	oe, isOracle := err.(*c03.OracleError)
+	if err != nil && !isOracle {
 		res.HarnessErr = fmt.Sprintf("scenario step %d (%s): %v", at, w.InFlight, err)
 		return res
 	}
 	w.Close()
+	if isOracle {
+		// the scenario stops here; the trace up to this point is still checked below
+		res.Evals++
+		res.Violate(oe.Key, "%s [scenario %s/%s]", oe.Msg, s.Scenario, s.Cfg)
+	}
 
 	chk := NewChecker(root)
 	nev := 0
